@@ -97,6 +97,19 @@ def tree(r,
     return out
 
 
+def adjacent_ok(prev, t):
+    """May token t directly follow token prev without white space?  A quoted
+    symbol and a string literal end at their closing delimiter, and the
+    characters '|' and '"' cannot be part of any other token, so the only
+    ambiguous case is a string literal directly followed by another one
+    ('""' is the escape for a quote)."""
+    if prev[0] == '|':
+        return True
+    if prev[0] == '"':
+        return t[0] != '"'
+    return t[0] in '|"'
+
+
 SEPS_STD = [' ', '\t', '\n', '  ', ' \n ', '\n\n', '\t ']
 SEPS_CR = ['\r', '\r\n', ' \r', '\r\n\r\n', '\r ']
 
@@ -116,7 +129,8 @@ def serialise(r, items, seps, comment_ends=('\n', ), final=None, tight=0.3):
                     out.append(r.choice(seps))
             else:
                 may_be_empty = (prev == '(' or prev == ')' or t == '('
-                                or t == ')' or refreader.is_comment(t))
+                                or t == ')' or refreader.is_comment(t)
+                                or adjacent_ok(prev, t))
                 if may_be_empty and r.random() < tight:
                     pass
                 else:
